@@ -76,6 +76,14 @@ def check_init(chk, crate, ident, w):
     where = body["span"][0]
     names = [f["name"] for f in g.adt["variants"][0]["fields"]]
     iM, iA, iB, iC = core_fields(g)
+    tys = crate.evaluator().tys
+    shape = body["argc"] == 2 and tys[body["locals"][1]]["k"] == "array" and tys[body["locals"][1]].get("len") == 256 \
+        and tys[body["locals"][2]]["s"] == "u32"
+    if not shape:
+        # a private helper of another shape: the routes through it are compared whole (R4; from_rng / try_from_rng in C09)
+        chk.ob("R3", "%s::init|helper is not (256 words, passes): seeding decided by the whole-route comparisons R4 only" % ident, True, "",
+               where=where, nontrivial=False)
+        return
     for passes in (1, 2):
         ev = crate.evaluator(max_steps=2000000)
         st = State()
